@@ -89,6 +89,10 @@ func loadCorpus() *corpus {
 }
 
 func (c *corpus) query(r *zsimrt.Rand) string {
+	return strings.ToValidUTF8(c.query0(r), "?") // see gFaulty: inputs must survive a JSON round trip
+}
+
+func (c *corpus) query0(r *zsimrt.Rand) string {
 	if len(c.bigQ) > 0 && r.Intn(50) == 0 {
 		return c.bigQ[r.Intn(len(c.bigQ))]
 	}
@@ -103,7 +107,7 @@ func (c *corpus) query(r *zsimrt.Rand) string {
 
 func (c *corpus) renderable(r *zsimrt.Rand) string {
 	if r.Intn(10) < 2 {
-		return genQuery(r, 0)
+		return strings.ToValidUTF8(genQuery(r, 0), "?")
 	}
 	return c.render[r.Intn(len(c.render))]
 }
@@ -220,6 +224,9 @@ func genBound(r *zsimrt.Rand) string {
 
 func genTerm(r *zsimrt.Rand) string {
 	f := pick(r, gFields)
+	if r.Intn(9) == 0 {
+		f = oddColumn(r)
+	}
 	switch r.Intn(12) {
 	case 0, 1, 2, 3:
 		return f + ":" + genValue(r)
@@ -245,7 +252,69 @@ func genTerm(r *zsimrt.Rand) string {
 	return f + ": " + genValue(r)
 }
 
+// Pieces that lex and parse but are rejected later — by the validator or by a renderer — each
+// with a message of its own (as built after seeded changes x4 and x5).
+var gFaulty = []string{
+	`(a:b OR c:d):e`,     // an expression where a field name is expected: equals
+	`(f:g OR h:i):>5`,    // ... compare
+	`(a:b):[1 TO 5]`,     // ... range
+	`a:b:c`,              // a chain of colons
+	`a:b~2`, `t:(x y)~3`, // fuzzy: no renderer
+	`a:b^2`, `(a:b c:d)^3`, // boost: no renderer
+	`"":c`,                  // empty column name
+	`a:"nul` + "\x00" + `"`, // a literal no renderer accepts (inputs stay valid UTF-8: scenarios, probes and replay files travel as JSON, which cannot carry anything else)
+	`*:x`, `7:[1 TO 2]`,
+}
+
+// oddColumn returns a column name that is legal to the lexer and odd to a renderer, FRESH
+// nearly every time (the suffix): whatever the library remembers about column names, it sees
+// this one for the first time — possibly from several tasks at once (hot query sets).
+func oddColumn(r *zsimrt.Rand) string {
+	k := itoa(r.Intn(100000))
+	switch r.Intn(6) {
+	case 0, 5:
+		return `c` + k + `\"q` // an escaped double quote inside the name: renderers reject it
+	case 1:
+		return `"col ` + k + `"` // quoted, with a space
+	case 2:
+		return `C` + k + `.Sub-x` // upper case, dot, dash
+	case 3:
+		return `c` + k + `\ sp` // escaped space
+	}
+	return `c` + k
+}
+
+// genMultiFault builds a query with TWO OR THREE independent faults, separated by valid
+// clauses: which error is reported must not depend on who finished first.
+func genMultiFault(r *zsimrt.Rand) string {
+	n := 2 + r.Intn(2)
+	var parts []string
+	for i := 0; i < n; i++ {
+		if i > 0 {
+			for f := r.Intn(4); f > 0; f-- { // valid filler between the faults
+				parts = append(parts, genTerm(r))
+			}
+		}
+		p := pick(r, gFaulty)
+		if r.Intn(4) == 0 {
+			p = oddColumn(r) + ":" + pick(r, gWords)
+		}
+		parts = append(parts, p)
+	}
+	op := pick(r, []string{" AND ", " OR ", " AND ", " "})
+	q := strings.Join(parts, op)
+	if r.Intn(3) == 0 && len(parts) >= 3 {
+		// balanced instead of a chain: (p0 op p1) op2 (p2 ...)
+		m := len(parts) / 2
+		q = "(" + strings.Join(parts[:m], op) + ")" + pick(r, []string{" AND ", " OR "}) + "(" + strings.Join(parts[m:], op) + ")"
+	}
+	return q
+}
+
 func genQuery(r *zsimrt.Rand, depth int) string {
+	if depth == 0 && r.Intn(10) == 0 {
+		return genMultiFault(r)
+	}
 	if depth >= 3 || r.Intn(3) == 0 {
 		return genTerm(r)
 	}
